@@ -12,7 +12,6 @@ verus! {
 pub struct ExAttribute(Attribute);
 
 #[verifier::external_type_specification]
-#[verifier::external_body]
 pub struct ExNexthop(bgp::Nexthop);
 
 #[verifier::external_type_specification]
@@ -70,7 +69,6 @@ pub fn vx_bytes_to_vec(s: &[u8]) -> (r: Vec<u8>)
 pub struct ExFamily(Family);
 
 #[verifier::external_type_specification]
-#[verifier::external_body]
 pub struct ExIpAddr(std::net::IpAddr);
 
 pub uninterp spec fn attr_code(a: Attribute) -> u8;
